@@ -86,8 +86,13 @@ def roundtrip(chk):
     n = 500 if chk.tier == "quick" else 8000
     for i in range(n):
         v = val(3)
-        m = hy.as_model(v)
         chk.case(("rt", i))
+        try:
+            m = hy.as_model(v)
+        except Exception as e:  # noqa: BLE001  (every generated value is model-representable)
+            bad = (v, f"as_model raised {type(e).__name__}: {e}")
+            hm._seen.clear()
+            break
         try:
             back = hy.eval(m, module=types.ModuleType("hv_c29"))
         except Exception as e:  # noqa: BLE001
@@ -116,8 +121,13 @@ def roundtrip(chk):
             except HyWrapperError:
                 pass
             v = val(2)
-            if hm._seen or hy.eval(hy.as_model(v), module=types.ModuleType("hv_c29")) != v and v == v:
-                bad = ("state leaked after a failed promotion", v, set(hm._seen))
+            try:
+                after = hy.eval(hy.as_model(v), module=types.ModuleType("hv_c29"))
+            except Exception as e:  # noqa: BLE001
+                after = e
+            if hm._seen or (after != v and v == v):
+                bad = ("state leaked after a failed promotion, or a later promotion failed", v, repr(after), set(hm._seen))
+                hm._seen.clear()
         chk.case(("cyc", i))
     chk.ob("rtc/self-referential structures raise HyWrapperError and later promotions work normally", bad is None, "rtc", "bounded", detail=str(bad))
 
